@@ -88,27 +88,49 @@ func (env *Env) lemmaObligations(prop string) (*VC, []*Obligation) {
 					panic(r)
 				}
 			}()
+			vc.lemmaPkg = lm.Pkg
 			st := vc.newState()
 			st.fr = &Frame{vals: nil, names: map[string]Val{}}
 			ec := &EvalCtx{st: st, names: map[string]Val{}, pkg: vc.pkgByShort(lm.Pkg), tparams: map[string]types.Type{}, bound: map[string]Val{}}
 			for _, p := range lm.Params {
-				srt := p.Type
-				switch p.Type {
-				case "int", "ref":
-					srt = SInt
-				case "bool":
-					srt = SBool
-				}
-				c := st.declare("lm."+p.Name, srt)
+				c := st.declare("lm."+p.Name, lemmaSort(p.Type))
 				ec.bound[p.Name] = TV{c, nil}
 			}
+			var reqs []*CExpr
+			var enss []*CExpr
 			for _, c := range lm.Clauses {
+				e, err := c.expr()
+				if err != nil {
+					fail("%v", err)
+				}
 				if c.Kw == "requires" {
-					e, err := c.expr()
-					if err != nil {
-						fail("%v", err)
-					}
+					reqs = append(reqs, e)
 					st.assume(ec.evalBool(e))
+				} else if c.Kw == "ensures" {
+					enss = append(enss, e)
+				}
+			}
+			if lm.Induct != "" {
+				// strong induction hypothesis: the lemma for every smaller non-negative value of the induction variable
+				k := ec.bound[lm.Induct].(TV).T
+				q := Term{smtIdent(vc.fresh("ih." + lm.Induct)), SInt}
+				sub := ec.child()
+				sub.bound[lm.Induct] = TV{q, nil}
+				var rs, es []Term
+				st.inQuant++
+				defer func() { st.inQuant-- }()
+				for _, r := range reqs {
+					rs = append(rs, sub.evalBool(r))
+				}
+				for _, e := range enss {
+					es = append(es, sub.evalBool(e))
+				}
+				body := tImp(tAnd(append([]Term{tLe(tInt(0), q), tLt(q, k)}, rs...)...), tAnd(es...))
+				pat := findSelectWith(body.S, q.S)
+				if pat != "" {
+					st.addLine(fmt.Sprintf("(assert (forall ((%s Int)) (! %s :pattern (%s))))", q.S, body.S, pat))
+				} else {
+					st.addLine(fmt.Sprintf("(assert (forall ((%s Int)) %s))", q.S, body.S))
 				}
 			}
 			for i, c := range lm.Clauses {
@@ -133,4 +155,87 @@ func (env *Env) lemmaObligations(prop string) (*VC, []*Obligation) {
 // tryReplay: turn a refuted obligation's model into a run of the real code. Returns (confirmed, detail).
 func tryReplay(env *Env, o *Obligation, rp *replayRecord) (bool, string) {
 	return replayObligation(env, o, rp)
+}
+
+func lemmaSort(t string) string {
+	switch t {
+	case "int", "ref", "Int":
+		return SInt
+	case "bool", "Bool":
+		return SBool
+	}
+	return t
+}
+
+// applyLemma: assume a proved lemma, instantiated at the given arguments (the induction variable stays universally quantified).
+func (vc *VC) applyLemma(st *State, text string) {
+	// text: Name(arg, ...) at entry
+	i := strings.Index(text, "(")
+	j := strings.LastIndex(text, ")")
+	if i < 0 || j < i {
+		fail("bad apply clause %q", text)
+	}
+	name := strings.TrimSpace(text[:i])
+	var lm *Lemma
+	for _, l := range vc.cs.Lemmas {
+		if l.Name == name {
+			lm = l
+		}
+	}
+	if lm == nil {
+		fail("apply: unknown lemma %s", name)
+	}
+	args := splitTargets(text[i+1 : j])
+	ec := st.evalCtx()
+	sub := ec.child()
+	sub.names = map[string]Val{}
+	var qdecl string
+	var qv Term
+	ai := 0
+	for _, p := range lm.Params {
+		if p.Name == lm.Induct {
+			qv = Term{smtIdent(vc.fresh("ap." + p.Name)), SInt}
+			qdecl = "(" + qv.S + " Int)"
+			sub.bound[p.Name] = TV{qv, nil}
+			continue
+		}
+		if ai >= len(args) {
+			fail("apply %s: too few arguments", name)
+		}
+		e, err := parseCExpr(args[ai])
+		if err != nil {
+			fail("apply %s: %v", name, err)
+		}
+		ai++
+		sub.bound[p.Name] = TV{ec.evalTerm(e), nil}
+	}
+	if p := vc.pkgByShort(lm.Pkg); p != nil {
+		sub.pkg = p
+	}
+	var rs, es []Term
+	st.inQuant++
+	defer func() { st.inQuant-- }()
+	for _, c := range lm.Clauses {
+		e, err := c.expr()
+		if err != nil {
+			fail("%v", err)
+		}
+		if c.Kw == "requires" {
+			rs = append(rs, sub.evalBool(e))
+		} else if c.Kw == "ensures" {
+			es = append(es, sub.evalBool(e))
+		}
+	}
+	body := tImp(tAnd(rs...), tAnd(es...))
+	vc.usedContracts["lemma "+lm.Pkg+"."+lm.Name] = true
+	if qdecl == "" {
+		st.assume(body)
+		return
+	}
+	pat := findSelectWith(body.S, qv.S)
+	if pat != "" {
+		st.addLine(fmt.Sprintf("(assert (forall (%s) (! %s :pattern (%s))))", qdecl, body.S, pat))
+	} else {
+		st.addLine(fmt.Sprintf("(assert (forall (%s) %s))", qdecl, body.S))
+	}
 }
